@@ -164,3 +164,19 @@ class StrQual:
             self.env[st.target.elts[0].id] = ("LE", "register")
         elif isinstance(it, ast.Name) and it.id in self.env.get("__counts__", ()) and isinstance(st.target, ast.Name):
             self.env[st.target.id] = ("LE", "register")
+        elif isinstance(it, ast.Call) and isinstance(it.func, ast.Attribute) and it.func.attr == "items" and isinstance(it.func.value, ast.Call) and \
+                isinstance(it.func.value.func, ast.Name) and it.func.value.func.id == "marginal_counts" and isinstance(st.target, ast.Tuple) and isinstance(st.target.elts[0], ast.Name):
+            # qiskit.result.marginal_counts(counts, indices): keys keep one character per selected clbit,
+            # little-endian over the SORTED indices (the order of `indices` is ignored)
+            mc = it.func.value
+            idx = mc.args[1] if len(mc.args) > 1 else next((k.value for k in mc.keywords if k.arg == "indices"), None)
+            src = mc.args[0] if mc.args else None
+            if isinstance(src, ast.Name) and src.id in self.env.get("__counts__", ()):
+                if idx is None or (isinstance(idx, ast.Constant) and idx.value is None):
+                    self.env[st.target.elts[0].id] = ("LE", "register")
+                else:
+                    base = idx
+                    while isinstance(base, ast.Call) and isinstance(base.func, ast.Name) and base.func.id in ("list", "tuple", "sorted") and base.args:
+                        base = base.args[0]
+                    if isinstance(base, ast.Name) and base.id in self.list_params:
+                        self.env[st.target.elts[0].id] = ("LE", ("sorted", base.id))
